@@ -795,7 +795,15 @@ def _concrete_args(tmpl, case, setup):
 
 
 def _dataset_seeds(seed, k):
-    return [int((seed + 7919 * i) % (SEED_MAX + 1)) for i in range(k)]
+    """one int seed per entry: pairwise different, all the same, or first == last (tied seeds are ordinary use - one seed
+    for a whole dataset - and every entry must still be the fresh stream of ITS seed)."""
+    out = [int((seed + 7919 * i) % (SEED_MAX + 1)) for i in range(k)]
+    form = seed % 3
+    if form == 1 and k > 0:
+        out = [out[0]] * k
+    elif form == 2 and k > 1:
+        out[-1] = out[0]
+    return out
 
 
 def _run_entry(e, c, setup, stream_arg, dataset_streams=None):
